@@ -317,7 +317,7 @@ impl Replayer {
             "Encrypt" => &["C05", "C01"],
             "Write" | "Load" => &["C06", "C15"],
             "JoinWelcome" => &["C07", "C01"],
-            "SuccCreate" | "SuccJoin" => &["C17"],
+            "SuccCreate" | "SuccJoin" | "SuccForge" => &["C17"],
             "DeliverProposal" | "Propose" => &["C10", "C01"],
             _ => &["C01"],
         };
@@ -667,6 +667,33 @@ impl Replayer {
                         let old_tree = self.w.parties[&p].group.as_ref().unwrap().export_tree().into_owned();
                         let blank_leaf = old_tree.nodes().iter().step_by(2).any(|n| n.is_none());
                         self.w.bump(&format!("succ_created:{kind}{}", if blank_leaf { ":old-tree-with-blank-leaf" } else { "" }));
+                        self.w.succ.push(SuccEntry { kind, group: ng, welcomes, joined: vec![] });
+                        "ok".into()
+                    }
+                    Err(e) => classify(&e),
+                }
+            }
+            "SuccForge" => {
+                // an ordinary group with the public parameters of a successor, built without the old group's secret
+                let kind = s(&args, "kind").to_string();
+                let kp_msgs: Vec<MlsMessage> = args.get("kps").and_then(|k| k.as_array()).map(|a| a.iter().map(|i| self.w.kps[i.as_u64().unwrap() as usize - 1].msg.clone()).collect()).unwrap_or_default();
+                let n = self.w.succ.len() + 1;
+                let gid = if kind == "reinit" { b"verif-group-next".to_vec() } else { format!("verif-branch-{n}").into_bytes() };
+                let ext = u(&args, "ext");
+                let exts = if ext == 0 { mls_rs::ExtensionList::new() } else { gce_list(ext) };
+                let client = self.w.parties[&p].client.clone();
+                let r = (|| {
+                    let mut g = client.create_group_with_id(gid, exts, Default::default(), None)?;
+                    let mut b = g.commit_builder();
+                    for kp in kp_msgs { b = b.add_member(kp)?; }
+                    let o = b.build()?;
+                    g.apply_pending_commit()?;
+                    Ok::<_, mls_rs::error::MlsError>((g, o.welcome_messages))
+                })();
+                match r {
+                    Ok((ng, welcomes)) => {
+                        self.check_successor(&p, &ng, &out, None);
+                        self.w.bump(&format!("succ_forged:{kind}"));
                         self.w.succ.push(SuccEntry { kind, group: ng, welcomes, joined: vec![] });
                         "ok".into()
                     }
